@@ -11,6 +11,10 @@ whether the instance created with these keyword arguments is still `running` aft
 exist here: `time.sleep(play_interval)` is the point at which the user can act between two ticks (`Ev`), and the
 user can also click ▶ / ❚❚ while a `model.step()` is executing (`hook`).  Threads (`solara.lab.use_task`) are not
 modelled: the loop is the function `step` run to its end.
+
+The two controllers differ in the constructor call of a reset: `ModelController` calls `Model(**model_parameters)`,
+`SimulatorController` calls `Model(simulator=simulator, **model_parameters)` (`Ctrl.sim`, `Ctrl.extraKeywords`); the
+check `ModelCreator` runs is told about that keyword (fix P3).
 -/
 namespace Mesa.Viz
 
@@ -22,7 +26,8 @@ abbrev Behaviour := Params → Nat → Bool
 structure Ctrl where
   params : Params              -- the reactive `model_parameters`
   inputs : List String := []   -- the names of the inputs `UserInputs` created
-  kwargs : Params              -- what the current model was created with
+  kwargs : Params              -- what the current model was created with (besides `simulator=`)
+  sim : Bool := false          -- `SimulatorController` (a `Simulator` was handed to `SolaraViz`)
   gen : Nat := 0               -- how many models a reset has created
   steps : Nat := 0             -- `model.steps`
   mrunning : Bool := true      -- `model.running`
@@ -32,6 +37,9 @@ structure Ctrl where
   threads : Bool := false      -- the reactive `use_threads`
   updates : Nat := 0           -- calls of `force_update()`
 deriving DecidableEq, Repr
+
+/-- the keyword arguments a reset passes to the constructor besides the parameter set -/
+def Ctrl.extraKeywords (c : Ctrl) : List String := if c.sim then ["simulator"] else []
 
 /-- `model.value.step()` (for `SimulatorController`: `simulator.run_for(1)`, one step of the model per time unit) -/
 def Ctrl.modelStep (beh : Behaviour) (c : Ctrl) : Ctrl :=
@@ -65,9 +73,11 @@ def doStep (beh : Behaviour) (hook : Option Nat) (c : Ctrl) : Ctrl :=
     let c' := stepLoop beh false hook c.render 1 c
     { c' with updates := c'.updates + 1 }
 
-/-- `do_reset()`: a new model from the current `model_parameters` -/
-def doReset (c : Ctrl) : Ctrl :=
-  { c with playing := false, running := true, mrunning := true, kwargs := c.params, steps := 0, gen := c.gen + 1 }
+/-- `do_reset()`: a new model from the current `model_parameters` (and `simulator=simulator`, see `extraKeywords`).  The
+    flag `running` is set to True before the model exists and is not read off the new model: a model that stops in its
+    constructor (`beh kwargs 0 = false`) has its buttons enabled until it is stepped once -/
+def doReset (beh : Behaviour) (c : Ctrl) : Ctrl :=
+  { c with playing := false, running := true, mrunning := beh c.params 0, kwargs := c.params, steps := 0, gen := c.gen + 1 }
 
 /-- what the user does while the play loop sleeps -/
 inductive Ev where
@@ -81,10 +91,10 @@ deriving DecidableEq, Repr
 def Ctrl.change (c : Ctrl) (name : String) (v : Val) : Option Ctrl :=
   if c.inputs.contains name then some { c with params := onChange c.params name v } else none
 
-def applyEv (c : Ctrl) : Ev → Ctrl
+def applyEv (beh : Behaviour) (c : Ctrl) : Ev → Ctrl
   | .idle => c
   | .pause => c.clickPlay.getD c
-  | .reset => doReset c
+  | .reset => doReset beh c
   | .render n => { c with render := n }
   | .set name v => (c.change name v).getD c
 
@@ -92,9 +102,9 @@ def applyEv (c : Ctrl) : Ev → Ctrl
     tick; when the list is used up the user clicks ❚❚ during the next sleep -/
 def playLoop (beh : Behaviour) : List (Ev × Option Nat) → Ctrl → Ctrl
   | [], c =>
-    if c.running && c.playing then doStep beh none (applyEv c .pause) else c
+    if c.running && c.playing then doStep beh none (applyEv beh c .pause) else c
   | (ev, hook) :: rest, c =>
-    if c.running && c.playing then playLoop beh rest (doStep beh hook (applyEv c ev)) else c
+    if c.running && c.playing then playLoop beh rest (doStep beh hook (applyEv beh c ev)) else c
 
 inductive CtrlOp where
   | step                                -- the Step button
@@ -110,7 +120,7 @@ deriving DecidableEq, Repr
 def Ctrl.apply (beh : Behaviour) (c : Ctrl) : CtrlOp → Option Ctrl
   | .step => if c.playing || !c.running then none else some (doStep beh none c)
   | .play => c.clickPlay
-  | .reset => some (doReset c)
+  | .reset => some (doReset beh c)
   | .render n => some { c with render := n }
   | .threads b =>
     -- `SolaraViz` shows a hint above the checkbox while threads are on: toggling shifts the controller to another
@@ -124,12 +134,14 @@ def Ctrl.run (beh : Behaviour) (c : Ctrl) : List CtrlOp → Ctrl
   | [] => c
   | op :: ops => ((c.apply beh op).getD c).run beh ops
 
-/-- `SolaraViz(model, model_params=ps, render_interval=r, use_threads=t)` rendered for a model created with `kwargs0`:
-    the errors of `ModelCreator`, else the initial state of the controls -/
-def Ctrl.init (sig : List Param) (ps : List (String × ParamVal)) (kwargs0 : Params) (r : Nat) (t : Bool) :
-    Except CreatorErr Ctrl :=
-  match modelCreator sig ps with
+/-- `SolaraViz(model, model_params=ps, render_interval=r, use_threads=t[, simulator=…])` rendered for a model of class
+    `beh` created with `kwargs0` (not stepped yet): the errors of `ModelCreator`, else the initial state of the controls —
+    the flag `running` starts True whatever the model says -/
+def Ctrl.init (beh : Behaviour) (sig : List Param) (ps : List (String × ParamVal)) (kwargs0 : Params) (r : Nat) (t : Bool)
+    (sim : Bool := false) : Except CreatorErr Ctrl :=
+  match modelCreator sig ps (if sim then ["simulator"] else []) with
   | .error e => .error e
-  | .ok (mp, ws) => .ok { params := mp, inputs := ws.map (·.name), kwargs := kwargs0, render := r, threads := t }
+  | .ok (mp, ws) =>
+    .ok { params := mp, inputs := ws.map (·.name), kwargs := kwargs0, sim := sim, mrunning := beh kwargs0 0, render := r, threads := t }
 
 end Mesa.Viz
